@@ -16,17 +16,18 @@
     does not hold; `rename_onto_existing_breaks` shows the condition is needed: the Go bookkeeping (and the model)
     ends with two columns of one name when it is violated.
 
-  * `names_positions_types` / `names_and_positions` — **the reader simulates the reference engine on tables, column
-    names, column positions and column types**:
+  * `names_positions_types_options` / `names_positions_types` / `names_and_positions` — **the reader simulates the
+    reference engine on tables, column names, column positions, column types and option kinds**:
     for every script of any length over the vocabulary without RENAME COLUMN / RENAME INDEX / COMMENT ON that the
     reference engine accepts from the empty schema (with or without referential checks), the MySQL reader model loads
     it without error and the loaded model has exactly the reference schema's tables in the same order, each with
-    exactly its column names and type texts in the same order; one commuting square per statement kind (Proofs/FidelitySteps:
+    exactly its column names and type texts in the same order, every column with the same option kinds and values
+    (NOT NULL, NULL, AUTO_INCREMENT, UNIQUE, DEFAULT, COMMENT) up to order; one commuting square per statement kind (Proofs/FidelitySteps:
     CREATE TABLE with its ColumnDef visits through the cursor, DROP TABLE, ADD COLUMN / FIRST / AFTER via
     `SetColumnPosition` + `swapOrder`, DROP COLUMN, MODIFY COLUMN, keys, indexes, foreign keys), carried by the relation
     `Rel` (consistent maps, no pending position, every record created in this history, same view).
 
-  Missing: the same for options, keys, indexes and foreign keys (L-read beyond names and types), and for RENAME COLUMN (a
+  Missing: the same for primary keys, indexes and foreign keys, and for RENAME COLUMN (a
   renamed record is no longer a plain `add` record: recorded region `rename-column`).  They are covered by correspondence (white-box state after every script, including the position maps,
   plus `invCheck` on the Go state) and by the executable predicate (dump → grammar → reference engine) on every case.
 -/
@@ -104,6 +105,14 @@ theorem names_positions_types (rc : Bool) (ss : List Stmt) (db : DB) (hs : ss.al
     (he : execAll rc [] ss = some db) :
     ∃ m, ReaderMysql.run {} ss = .ok m ∧ ReaderMysql.typedView m = ReaderMysql.typedSpec db :=
   ReaderMysql.fidelity_typed rc ss db hs he
+
+/-- … and, position by position, the same option kinds and values up to order -/
+theorem names_positions_types_options (rc : Bool) (ss : List Stmt) (db : DB) (hs : ss.all Stmt.colSafe = true)
+    (he : execAll rc [] ss = some db) :
+    ∃ m, ReaderMysql.run {} ss = .ok m ∧ ReaderMysql.typedView m = ReaderMysql.typedSpec db ∧
+      ∀ (i j : Nat) (tm : Table) (tb : TableSpec) (c : Column) (cs : ColSpec), m.tables[i]? = some tm → db[i]? = some tb →
+        tm.cols[j]? = some c → tb.cols[j]? = some cs → (Table.optKinds c.cur.opts).Perm cs.opts :=
+  ReaderMysql.fidelity_options rc ss db hs he
 
 -- non-vacuity: a two-table script with positional adds interleaved across tables, a drop and a modify
 def exScript : List Stmt :=
